@@ -13,6 +13,9 @@ Facts (all re-read from the tree under test on every run):
   processesHaveRetry     whether the processes executor retries too (processes_create_futures_func submits a function that
                          wraps the call in a Retrying); procDefaultRetries / procRetryExtraAttempts / procRetriesZeroSkipsWrapper
                          are the same three facts read from that wrapper; processesPopRetries: `retries` is popped from kwargs
+  backupsUnlinkedOnlyOnSuccess   every statement that removes a `backups` entry (`del backups[…]`, .pop/.clear) sits in the
+                         `if use_backups:` clean-up of a task that has just been yielded — the pair stays linked when a
+                         task fails (that entry is what limits an input to one backup)
   emptyFirstBatchOk      the first batch is taken with `next(input_batches, <empty>)` (True) or `next(input_batches)` (False)
 """
 from __future__ import annotations
@@ -140,6 +143,31 @@ def facts(repo):
         raise ExtractError(f"{rel}: `task in superseded` test and `superseded.add(backup)` no longer go together")
     put("skipsSuperseded", "Bool", b(skip), rel + ":async_map_unordered loop over finished")
     put("checksNotInBackups", "Bool", b(guard), rel + ":async_map_unordered backup launch guard")
+
+    # `backups` entries are removed only in the clean-up that follows the yield of a successful task
+    def removals(node):
+        out = []
+        for sub in ast.walk(node):
+            if isinstance(sub, ast.Delete):
+                out += [tg for tg in sub.targets if isinstance(tg, ast.Subscript) and _src(tg.value) == "backups"]
+            if isinstance(sub, ast.Call) and _src(sub.func) in ("backups.pop", "backups.clear", "backups.popitem"):
+                out.append(sub)
+            if isinstance(sub, ast.Assign) and any(_src(tg) == "backups" for tg in sub.targets) \
+                    and not isinstance(sub.value, ast.Dict):
+                out.append(sub)
+        return out
+    allowed = []
+    for node in ast.walk(fn):
+        if isinstance(node, ast.For) and _src(node.iter) == "finished":
+            seen_yield = False
+            for stmt in node.body:
+                if any(isinstance(x, ast.Yield) for x in ast.walk(stmt)):
+                    seen_yield = True
+                elif seen_yield and isinstance(stmt, ast.If) and _src(stmt.test) == "use_backups":
+                    allowed += removals(stmt)
+    total = removals(fn)
+    put("backupsUnlinkedOnlyOnSuccess", "Bool", b(len(total) == len(allowed) and len(allowed) == 2),
+        rel + ":async_map_unordered `del backups[…]` only after the yield of a successful task")
 
     # ---- local.py ----------------------------------------------------------------------------------
     rel = "cubed/runtime/executors/local.py"
